@@ -10,7 +10,7 @@ differ; the capacity model predicts the MustNot result there and the corresponde
 import re, os
 import vlib
 from fhgen import *
-from props import C01, C02, C03, C04, C05, C11, C12
+from props import C01, C02, C03, C04, C05, C11, C12, C06
 
 RULE = ("batteries of C01, C02, C03, C04, C05, C11, C12 (one script of every kind) + expression-depth scenarios 62..67 and 1..5 nested remember_state under both "
         "policies; per unwinding call / iterator step: allocator calls == 0 under MustNot; line-by-line equality of "
@@ -112,7 +112,9 @@ def generate(rng, tier):
     out = []
     q = "quick"
     n = 2 if tier == "quick" else 6
-    srcs = [("c01", C01), ("c02", C02), ("c03", C03), ("c04", C04), ("c05", C05), ("c11", C11), ("c12", C12)]
+    # (C06's histories: several unwinders, older and newer module-set identities, taking turns on shared caches - what the
+    # cache does when it replaces an entry happens inside the unwinding call too; seeded change C15-14)
+    srcs = [("c01", C01), ("c02", C02), ("c03", C03), ("c04", C04), ("c05", C05), ("c06", C06), ("c11", C11), ("c12", C12)]
     for tag, m in srcs:
         # one script of every kind the battery has (architecture, format, stream) before a second of any kind;
         # hook-level streams (analyze / exec only) make no unwinding calls and are left out
